@@ -134,6 +134,7 @@ def groups():
         gs.append(Group('dbgB_setBreakPoint' + sfx, DBG_PROPS + ['C08'], 'Theo::VM::setBreakPoint (VM/src/vm.cpp)', 'c_setBreakPoint',
                         _dbg_build('setBreakPoint', loops=True, cdefs=[f'TBL_CAP={K}']), timeout=1800, expect_loops=1, tier=tier, bounded=BND % K))
     gs += act_groups()
+    gs += ctor_groups()
     return gs
 
 
@@ -149,3 +150,15 @@ def act_groups():
     return [Group('dbgU_getActivationVariables', ['C03', 'C05', 'C07', 'C18'], 'Theo::VM::Activation::getActivationVariables (VM/src/vm.cpp)', 'c_getActivationVariables',
                   build, timeout=900,
                   bounded='BOUNDED stand-in: frame of at most 2 words, stack map of at most 2 entries, result map of capacity 4, --unwind 4 --unwinding-assertions (two nested loops over a map; data size symbolic)')]
+
+
+def ctor_groups():
+    import ctorunit
+
+    def build(gw, rl):
+        vmunit.vm_mirror(gw)
+        name = ctorunit.build_ctor_unit(gw, rl)
+        return {'c_sources': [os.path.join(CONTRACTS, 'vm_ctor.c')], 'cxx_sources': [os.path.join(gw, name)], 'entry': 'h_ctor',
+                'enforce': ['w_ctor/c_ctor'], 'dropped': DROPPED_VM, 'min_obligations': 5}
+    return [Group('vm_ctor', ['C17', 'C05', 'C06', 'C19', 'C18'], 'Theo::VM::VM(Program) (VM/src/vm.cpp)', 'c_ctor', build, timeout=300,
+                  note='the model containers copy shallowly: "the machine owns a private copy of the program" (C18) is not expressible in the model')]
